@@ -22,7 +22,7 @@
 (*   Dev_BoolAsInt         true / false are stored as integers 1 / 0                                                    *)
 EXTENDS TomlOps, Json
 
-CONSTANTS Families,            \* family name -> [a |-> alphabet (set of lexeme names), n |-> MaxLen]
+CONSTANTS Families,            \* family name -> [a |-> alphabet (set of lexeme names), n |-> MaxLen, nl |-> set of "final newline" flags]
           Dev_EmptyKeyHang, Dev_InsertOverwrites, Dev_DupTableMerged, Dev_EmptyHeaderIsRoot, Dev_SameLineStatements,
           Dev_NumberPrefixAccepted, Dev_LiteralStringEscapes, Dev_UnknownEscapeKept, Dev_DottedKeyLiteral, Dev_EmptyArrayBecomesAot,
           Dev_EmptyTableDropped, Dev_FloatIntegralToInt, Dev_FloatPrecision15, Dev_NestedArrayLost,
@@ -48,9 +48,10 @@ Slip(r) == LET unscope(e) == IF Dev_HeaderNotScoped /\ Len(e) = 3 /\ e[1] = "t" 
            IN [r EXCEPT !.t1 = tr(r.t1), !.t2 = tr(r.t2)]
 Impl == Slip(Eval(lex, F))
 
-Init == fam \in DOMAIN Families /\ lex = <<>> /\ nl \in BOOLEAN
-\* a document that both semantics have given up on is a case but is not extended; an unterminated construct ends it
-Closed(ls) == \/ Eval(ls, {}).p1 # "ok" /\ Eval(ls, KnownDevs).p1 # "ok"
+Init == fam \in DOMAIN Families /\ lex = <<>> /\ nl \in Families[fam].nl
+\* a document the as-built semantics has given up on (rejected / hangs) is a case but is not extended (a rejected document
+\* stays rejected in both semantics, see AbsLaws); an unterminated construct ends the document
+Closed(ls) == \/ Eval(ls, KnownDevs).p1 # "ok"
               \/ \E j \in 1..Len(ls) : Lx[ls[j]].k = "open"
 Next == /\ Len(lex) < Families[fam].n /\ ~Closed(lex)
         /\ \E x \in Families[fam].a : lex' = Append(lex, x)
